@@ -103,7 +103,9 @@ func (s *SSD) storeFrame(msgs message.Frame) error {
 	return s.db.Update(func(tx *badger.Txn) error {
 		for _, m := range encoded {
 			entry := m // Copy address
-			tx.SetEntry(entry)
+			if err := tx.SetEntry(entry); err != nil {
+				return err
+			}
 		}
 		return nil
 	})
